@@ -6,6 +6,7 @@ import json
 from sfv.framework import Ctx, Property
 from sfv.rt import wfcheck, wfgen
 
+KNOWN_LOOP_HANG = "hang:LoopCombinatorStep-keeps-reading-after-FAILED-termination-on-another-input-port"
 KNOWN_CANCEL = "executor-_cancel-marks-closed:FAILED-termination-on-an-output-port:steps-still-running-when-run-raises"
 
 
@@ -13,6 +14,16 @@ def oracle(spec: dict, res: dict, failing: bool):
     """yield (key, detail): ways in which one real run contradicts the property statement"""
     kind = res["outcome"]["kind"]
     if kind == "hang":
+        # narrow classification of one known deadlock: a LoopCombinatorStep one of whose input ports was terminated FAILED /
+        # CANCELLED (its checklist is cleared) while another input port already delivered a token whose iteration can
+        # never terminate (no combination is ever produced), so the step reads that port forever
+        for name, lc in res.get("loop_combinators", {}).items():
+            bad_in = [p for p, v in lc["inputs"].items() if any(t in ("FAILED", "CANCELLED") for t in v["terminations"])]
+            waiting = [p for p, v in lc["checklist"].items() if v and p not in bad_in]
+            if failing and not lc["terminated"] and bad_in and waiting:
+                yield KNOWN_LOOP_HANG, (f"{res['outcome']['detail']}: {name} got a FAILED termination on {bad_in} and still waits for the "
+                                        f"iteration termination of {[(p, lc['checklist'][p]) for p in waiting]}")
+                return
         yield "hang:executor-run-does-not-finish", f"{res['outcome']['detail']}; unterminated steps {res.get('unterminated_at_exit')}"
         return
     if kind == "harness-error":
@@ -124,7 +135,7 @@ class C04(Property):
             if hangs >= 4:
                 ctx.notes.append("stopped generating after 4 hanging runs (each costs the whole watchdog time)")
                 break
-            feats = {"exec": 4} if rng.random() < 0.35 else None
+            feats = {"exec": 4} if rng.random() < 0.3 else ({"loop": 3} if rng.random() < 0.3 else None)
             spec = wfgen.gen_spec(rng, size=rng.randint(2, 12), features=feats)
             failing = rng.random() < 0.5
             fspec = wfgen.choose_failure(rng, spec) if failing else None
@@ -132,8 +143,14 @@ class C04(Property):
                 failing = False
             run_spec = fspec or spec
             seeds = [rng.randrange(1 << 30) for _ in range(k)]
-            runs = wfcheck.run_schedules(run_spec, seeds, ctx.scratch, timeout=20.0)
-            hangs += sum(1 for r in runs if r["outcome"]["kind"] == "hang")
+            runs = []
+            for j, sd in enumerate([None] + seeds):
+                # default asyncio order first, then the PRNG schedules; a hanging workflow is not run again
+                runs += wfcheck.run_schedules(run_spec, [] if sd is None else [sd], ctx.scratch, timeout=20.0, plain_first=sd is None)
+                if runs[-1]["outcome"]["kind"] == "hang":
+                    break
+            hangs += sum(1 for r in runs if r["outcome"]["kind"] == "hang" and not any(
+                k == KNOWN_LOOP_HANG for k, _ in oracle(run_spec, r, failing)))
             fail_node = _fail_node(run_spec)
             key = ("wf", json.dumps(run_spec, sort_keys=True)) if len(spec["nodes"]) >= 3 else None
             ctx.case({"spec": run_spec, "failing": failing, "outcomes": [r["outcome"]["kind"] for r in runs],
@@ -168,6 +185,8 @@ class C04(Property):
                     diff = {}
                     for nid, names in r.get("node_steps", {}).items():
                         kind = spec["nodes"][int(nid)]["kind"]
+                        if kind == "loop":
+                            continue      # a whole sub-network: its steps are covered by the terminated / status oracle
                         name = names[0] if kind != "exec" else f"/n{nid}-exec"
                         real = r["steps"].get(name, {}).get("status")
                         if real != model.get(nid):
